@@ -14,4 +14,10 @@ def jobs(tier, ctx):
                     inputs='frame kinds, register values, value kinds, nesting, stack depth before',
                     assumptions=['longjmp is modelled by calling the landing site code (restore_context; pop_context) from the state the jump can arrive in',
                                  'the catch point has at least one frame below it (csp == control_stack-1 is outside CBMC pointer model)']))
+    for caught in (0, 1):
+        out.append(dict(name='error_guards.caught%d' % caught, srcs=['@harness/C05/error_guards.c', 'src/frame.c', 'src/stack.c', 'lib/lpc/svalue.c', 'src/stralloc.c', 'lib/misc/hash.c'],
+                        stubs=['@world/world_base.c', '@world/libc_models.c', '@world/vm_world.c', '@harness/C05/stubs.c', '@harness/C05/error_guard_stubs.c'], defs=['CAUGHT=%d' % caught], unwind=8, nobody_ok=['*'],
+                        cuts=['do_catch', 'error', 'bad_arg', 'bad_argument'], targets=['error_handler'], timeout=300, mem_gb=6, opt_witness=['jumped_to_context'],
+                        desc='real error_handler() for an error %s, from any combination of the in_error / in_mudlib_error_handler flags and with or without a current heart beat: the load_object and destruct_object guards have been reset whenever it jumps' % ('caught by catch()' if caught else 'reaching the driver'),
+                        inputs='re-entrancy flags, heart beat', assumptions=['the master error handler (mudlib_error_handler) is cut; longjmp is a recording stub']))
     return out
